@@ -17,10 +17,11 @@ import (
 
 // DeadlineCase is the replayable form.
 type DeadlineCase struct {
-	Kind      string `json:"kind"`       // "deadline"
-	TimeoutMS int    `json:"timeout_ms"` // -1: not set (client default), 0: explicit zero
-	CallerMS  int    `json:"caller_ms"`  // 0: no caller deadline
-	Where     string `json:"where"`      // "operation" | "transport" | "both"
+	Kind      string `json:"kind"`                 // "deadline"
+	TimeoutMS int    `json:"timeout_ms"`           // -1: not set (client default), 0: explicit zero
+	CallerMS  int    `json:"caller_ms"`            // 0: no caller deadline
+	Where     string `json:"where"`                // "operation" | "transport" | "both"
+	DefaultMS int    `json:"default_ms,omitempty"` // > 0: the application set the package variable client.DefaultTimeout to this before the call
 }
 
 type deadlineRT struct {
@@ -36,6 +37,12 @@ func (d *deadlineRT) RoundTrip(req *http.Request) (*http.Response, error) {
 }
 
 func checkDeadline(dc DeadlineCase) (string, string) {
+	if dc.DefaultMS > 0 {
+		// the documented way to change the timeout of calls that do not set their own (sequential part of main)
+		old := client.DefaultTimeout
+		client.DefaultTimeout = time.Duration(dc.DefaultMS) * time.Millisecond
+		defer func() { client.DefaultTimeout = old }()
+	}
 	rt := client.New("example.test", "/", []string{"http"})
 	tr := &deadlineRT{}
 	rt.Transport = tr
